@@ -134,11 +134,14 @@ def main(argv):
                     summary = [l for l in out2.split("\n") if l.startswith("[" + p)][-1:] or [out2[-200:]]
                     rec["checked"].append(dict(prop=p, exit=rc2, summary=summary[0][:200]))
                     if rc2 != 0 or "VIOLATION" in out2:
-                        rec["status"] = "killed"; rec["killed_by"] = p
-                        rec["static_only"] = ("no-failing-input-found" in out2) and not re.search(r"VIOLATION property=\w+ replay=\S+\s*$", out2, re.M)
-                        v = [l for l in out2.split("\n") if l.startswith("VIOLATION")]
-                        rec["violation"] = v[0][:200] if v else ""
-                        break
+                        static = ("no-failing-input-found" in out2) and not re.search(r"VIOLATION property=\w+ replay=\S+\s*$", out2, re.M)
+                        if rec["status"] != "killed" or not static:
+                            rec["status"] = "killed"; rec["killed_by"] = p; rec["static_only"] = static
+                            v = [l for l in out2.split("\n") if l.startswith("VIOLATION")]
+                            rec["violation"] = v[0][:200] if v else ""
+                        # a kill by the static tie alone does not say whether the differential run of the OWNING property would have
+                        # found an input: keep going through the remaining properties until one does
+                        if not static: break
         finally:
             open(path, "w").write(src)
         rec["seconds"] = round(time.time() - t0, 1)
